@@ -1,10 +1,13 @@
 package main
 
 import (
+	"bufio"
 	"encoding/json"
 	"flag"
 	"fmt"
 	"hash/fnv"
+	"io"
+	"os"
 	"runtime"
 	"sort"
 	"sync"
@@ -76,14 +79,13 @@ type caseLine struct {
 }
 
 type group struct {
-	raw     json.RawMessage
-	net     modNet
-	meta    *netMeta
-	metaRaw json.RawMessage
-	wants   []wantCase
-	hists   []seqCase
-	sufs    []seqCase
-	pairs   [][2]seqCase
+	raw   json.RawMessage
+	net   modNet
+	meta  *netMeta
+	wants []wantCase
+	hists []seqCase
+	sufs  []seqCase
+	pairs [][2]seqCase
 }
 
 func init() { commands["replay-modular"] = replayModular }
@@ -520,42 +522,62 @@ func (g *group) metaCase() interface{} {
 	return map[string]interface{}{"kind": "net", "net": g.raw, "meta": g.meta, "wants": g.wants}
 }
 
-func replayModular(args []string) int {
-	fs := flag.NewFlagSet("replay-modular", flag.ExitOnError)
-	cases := fs.String("cases", "", "NDJSON net / hist / suffix lines printed by MC_ModularAct")
-	out := fs.String("out", "", "report file")
-	maxPairs := fs.Int("maxpairs", 6, "suffixes run after each history (rotating through the network's suffixes)")
-	_ = fs.Parse(args)
-	rp := &replayer{rep: &vhu.Report{Command: "replay-modular"}, internal: map[string]int{}, obsv: map[string]*observation{},
-		seen: map[uint64]bool{}, stats: map[string]int{}, classes: map[string]int{}}
-	groups := map[string]*group{}
-	var order []string
-	err := vhu.ReadNDJSON(*cases, func(line []byte) error {
-		var l caseLine
-		if err := json.Unmarshal(line, &l); err != nil {
+type lineRef struct {
+	off int64
+	n   int
+}
+
+// indexLines calls fn for every non-empty line with its position in the file
+func indexLines(path string, fn func(line []byte, ref lineRef) error) error {
+	f, err := os.Open(path)
+	if err != nil {
+		return err
+	}
+	defer f.Close()
+	rd := bufio.NewReaderSize(f, 1<<20)
+	var off int64
+	for {
+		line, err := rd.ReadBytes('\n')
+		if len(line) > 1 {
+			if e := fn(line, lineRef{off, len(line)}); e != nil {
+				return e
+			}
+		}
+		off += int64(len(line))
+		if err == io.EOF {
+			return nil
+		}
+		if err != nil {
 			return err
 		}
-		key := string(l.Net)
-		g := groups[key]
-		if g == nil {
-			g = &group{raw: append(json.RawMessage(nil), l.Net...)}
-			if err := json.Unmarshal(l.Net, &g.net); err != nil {
-				return err
-			}
-			groups[key] = g
-			order = append(order, key)
+	}
+}
+
+// loadGroup parses the lines of one network
+func loadGroup(f *os.File, key string, refs []lineRef) (*group, error) {
+	g := &group{raw: json.RawMessage(key)}
+	if err := json.Unmarshal(g.raw, &g.net); err != nil {
+		return nil, err
+	}
+	for _, r := range refs {
+		line := make([]byte, r.n)
+		if _, err := f.ReadAt(line, r.off); err != nil {
+			return nil, err
 		}
-		raw := append(json.RawMessage(nil), line...)
+		var l caseLine
+		if err := json.Unmarshal(line, &l); err != nil {
+			return nil, err
+		}
 		if l.Meta != nil && g.meta == nil {
 			g.meta = l.Meta
 			g.wants = l.Wants
 		}
 		switch l.Kind {
 		case "hist":
-			l.seqCase.raw = raw
+			l.seqCase.raw = line
 			g.hists = append(g.hists, l.seqCase)
 		case "suffix":
-			l.seqCase.raw = raw
+			l.seqCase.raw = line
 			g.sufs = append(g.sufs, l.seqCase)
 		case "pair":
 			p := [2]seqCase{}
@@ -567,6 +589,33 @@ func replayModular(args []string) int {
 			}
 			g.pairs = append(g.pairs, p)
 		}
+	}
+	return g, nil
+}
+
+func replayModular(args []string) int {
+	fs := flag.NewFlagSet("replay-modular", flag.ExitOnError)
+	cases := fs.String("cases", "", "NDJSON net / hist / suffix lines printed by MC_ModularAct")
+	out := fs.String("out", "", "report file")
+	maxPairs := fs.Int("maxpairs", 6, "suffixes run after each history (rotating through the network's suffixes)")
+	_ = fs.Parse(args)
+	rp := &replayer{rep: &vhu.Report{Command: "replay-modular"}, internal: map[string]int{}, obsv: map[string]*observation{},
+		seen: map[uint64]bool{}, stats: map[string]int{}, classes: map[string]int{}}
+	// pass 1: index the lines by network (the case files of the thorough tier are too large to keep parsed in memory)
+	refs := map[string][]lineRef{}
+	var order []string
+	err := indexLines(*cases, func(line []byte, ref lineRef) error {
+		var l struct {
+			Net json.RawMessage `json:"net"`
+		}
+		if err := json.Unmarshal(line, &l); err != nil {
+			return err
+		}
+		key := string(l.Net)
+		if _, ok := refs[key]; !ok {
+			order = append(order, key)
+		}
+		refs[key] = append(refs[key], ref)
 		return nil
 	})
 	if err != nil {
@@ -590,8 +639,19 @@ func replayModular(args []string) int {
 		wg.Add(1)
 		go func(w int) {
 			defer wg.Done()
+			f, err := os.Open(*cases)
+			if err != nil {
+				parts[w].fail("io", err.Error(), nil)
+				return
+			}
+			defer f.Close()
 			for gi := w; gi < len(order); gi += nw {
-				parts[w].runGroup(groups[order[gi]], gi, *maxPairs)
+				g, err := loadGroup(f, order[gi], refs[order[gi]])
+				if err != nil {
+					parts[w].fail("io", err.Error(), nil)
+					return
+				}
+				parts[w].runGroup(g, gi, *maxPairs)
 			}
 		}(w)
 	}
